@@ -79,9 +79,12 @@ impl FromStr for GameState {
                 .map(|(_, s)| s)
                 .enumerate()
             {
-                let idx = (row_idx * BOARD_WIDTH + col_idx) as u8;
-                let square = Square::from_index(idx);
+                let idx = row_idx * BOARD_WIDTH + col_idx;
                 if let Some((piece, is_p1)) = convert_char_to_piece(charr) {
+                    if idx >= BOARD_WIDTH * BOARD_HEIGHT {
+                        return Err(anyhow::anyhow!("Piece outside of the board"));
+                    }
+                    let square = Square::from_index(idx as u8);
                     let square_bit = square.as_bit_board();
 
                     match piece {
